@@ -285,7 +285,8 @@ def job_prog(job):
                 data.read_calls[s] = np.zeros((len(reads), 2), int)
                 data.read_dists[s] = R
                 data.read_counts[s] = C
-            prog.call_sample_genotypes(data)
+            with env.app_warnings():
+                prog.call_sample_genotypes(data)
             r.evaluations += 1
             r.nontrivial += 1
             tagb = "prog|inst=%d|format=%s|info=%s" % (ii, [f.id for f, b in zip(fopt, fs) if b], [f.id for f, b in zip(iopt, isub) if b])
